@@ -33,6 +33,8 @@ type tester struct {
 	carrier    *types.Block
 	carrierFor types.BlockID
 	// the same for a block with a v2 part and no v1 transaction
+	pool           []types.V2Transaction // decoded from a multiproof set, parents kept current (wirePool)
+	poolAge        int
 	carrierV2      *types.Block
 	carrierV2For   types.BlockID
 	expiringProbes int
@@ -76,10 +78,10 @@ func (t *tester) r1(cs consensus.State, txn types.V2Transaction) bool {
 }
 
 func wrapSC(e types.SiacoinElement) types.V2Transaction {
-	return types.V2Transaction{SiacoinInputs: []types.V2SiacoinInput{{Parent: e}}}
+	return types.V2Transaction{SiacoinInputs: []types.V2SiacoinInput{{Parent: e, SatisfiedPolicy: types.SatisfiedPolicy{Policy: types.AnyoneCanSpend()}}}}
 }
 func wrapSF(e types.SiafundElement) types.V2Transaction {
-	return types.V2Transaction{SiafundInputs: []types.V2SiafundInput{{Parent: e}}}
+	return types.V2Transaction{SiafundInputs: []types.V2SiafundInput{{Parent: e, SatisfiedPolicy: types.SatisfiedPolicy{Policy: types.AnyoneCanSpend()}}}}
 }
 func wrapV2FCrev(e types.V2FileContractElement) types.V2Transaction {
 	return types.V2Transaction{FileContractRevisions: []types.V2FileContractRevision{{Parent: e}}}
@@ -1242,7 +1244,69 @@ func (t *tester) v1Fabrications(cs consensus.State, orig types.Block) {
 	}
 }
 
+// wirePool: a transaction pool holds transactions as they came off the wire (a multiproof set: the proofs of all
+// parents are rebuilt by the decoder) and keeps their parents' proofs current with every block. A pooled parent that
+// is still live stays a member - whatever happened to the proofs of the parents decoded beside it.
+func (t *tester) wirePool(ev chaingen.ApplyEvent) {
+	s := t.c.S
+	for i := range t.pool {
+		for k := range t.pool[i].SiacoinInputs {
+			ev.AU.UpdateElementProof(&t.pool[i].SiacoinInputs[k].Parent.StateElement)
+		}
+	}
+	for i := range t.pool {
+		for k := range t.pool[i].SiacoinInputs {
+			p := &t.pool[i].SiacoinInputs[k].Parent
+			live, ok := s.SCEs[p.ID]
+			if !ok || live.StateElement.LeafIndex != p.StateElement.LeafIndex {
+				continue // spent (or re-created elsewhere by a reorg) meanwhile
+			}
+			t.b.Count("pooled_wire_parents_checked_after_a_block", 1)
+			if !t.r1(ev.Next, wrapSC(p.Copy())) {
+				t.expect("siacoin", "none/parent-of-a-pooled-wire-transaction-kept-current", true, "ValidateTransactionElements", false)
+				t.pool = nil
+				return
+			}
+		}
+	}
+	if t.poolAge++; len(t.pool) > 0 && t.poolAge < 12 {
+		return
+	}
+	// refill: up to four live outputs from different parts of the accumulator, one transaction each, through the wire
+	t.pool, t.poolAge = nil, 0
+	ids := s.OrderedSC()
+	if len(ids) < 4 {
+		return
+	}
+	var txns []types.V2Transaction
+	for _, j := range []int{0, len(ids) / 3, 2 * len(ids) / 3, len(ids) - 1} {
+		txns = append(txns, wrapSC(s.SCEs[ids[j]].Copy()))
+	}
+	var buf bytes.Buffer
+	e := types.NewEncoder(&buf)
+	ok := true
+	func() {
+		defer func() {
+			if recover() != nil {
+				ok = false
+			}
+		}()
+		types.V2TransactionsMultiproof(txns).EncodeTo(e)
+	}()
+	e.Flush()
+	var out types.V2TransactionsMultiproof
+	d := types.NewBufDecoder(buf.Bytes())
+	if ok {
+		out.DecodeFrom(d)
+	}
+	if ok && d.Err() == nil && len(out) == len(txns) {
+		t.pool = out
+		t.b.Count("wire_pools_filled", 1)
+	}
+}
+
 func (t *tester) onApply(ev chaingen.ApplyEvent) {
+	t.wirePool(ev)
 	h := ev.Next.Index.Height
 	// the field values of a v1 contract leaf are those the history created: the payout is fixed at formation (a
 	// revision cannot change it and does not even transmit it), so every later report of the contract carries it
@@ -1333,6 +1397,7 @@ func (t *tester) onApply(ev chaingen.ApplyEvent) {
 }
 
 func (t *tester) onRevert(ev chaingen.RevertEvent, au *consensus.ApplyUpdate) {
+	t.pool = nil // pooled proofs belong to the branch that is being left
 	h := ev.Prev.Index.Height
 	for i := range t.spentSC {
 		if t.spentSC[i].at > h {
@@ -1447,6 +1512,6 @@ func main() {
 		Run:         run,
 		MinEvals:    5000,
 		MinDistinct: 150,
-		Require:     []string{"v1_window_ids_replaced_by_a_non_ancestor", "blocks_applied", "blocks_reverted", "live_elements_accepted", "non_members_rejected", "v2_pending_revision_parents_tried", "supplement_expiring_probes_on_a_v2_only_carrier", "wire_duplicate_sets_tried_with_proofs_of_two_or_more_hashes"},
+		Require:     []string{"v1_window_ids_replaced_by_a_non_ancestor", "blocks_applied", "blocks_reverted", "live_elements_accepted", "non_members_rejected", "v2_pending_revision_parents_tried", "supplement_expiring_probes_on_a_v2_only_carrier", "wire_duplicate_sets_tried_with_proofs_of_two_or_more_hashes", "pooled_wire_parents_checked_after_a_block"},
 	})
 }
